@@ -412,6 +412,22 @@ func genCase(maxSeq, minCalls, maxCalls int) func(rt *rapid.T) interface{} {
 						ar = arity()
 					}
 					var tu []exprSpec
+					if a > 0 && len(cl.Alts[a-1]) > 0 && rapid.Bool().Draw(rt, "neighbour-alt") {
+						// the previous tuple with one position changed to another value (plain values throughout)
+						prev := cl.Alts[a-1]
+						at := rapid.IntRange(0, len(prev)-1).Draw(rt, "alt-pos")
+						for p, e := range prev {
+							if e.Kind != "val" {
+								e = exprSpec{Kind: "val", V: rapid.IntRange(0, len(pool(t.paramType(p)))-1).Draw(rt, "v")}
+							}
+							if p == at {
+								e.V = (e.V + rapid.IntRange(1, 3).Draw(rt, "alt-shift")) % len(pool(t.paramType(p)))
+							}
+							tu = append(tu, e)
+						}
+						cl.Alts = append(cl.Alts, tu)
+						continue
+					}
 					for p := 0; p < ar; p++ {
 						tu = append(tu, genExpr(rt, t, p, false))
 					}
